@@ -166,10 +166,65 @@ def vecop_case(c):
     return dict(status="violated" if fails else "ok", fails=fails)
 
 
+def interp_field_case(c):
+    """Adaptive-solver code reads the input as interp(t, time, samples): inside the grid linear interpolation, OUTSIDE it the end
+    value is held (numpy.interp), on every backend.  The compiled vector field is evaluated at times inside, before and after the grid."""
+    arrs = {kk: np.asarray(v, dtype=float) for kk, v in c["inputs"].items()}
+    T = c["T"]
+    try:
+        comp = oracle.compile_model(c["model"], backend=c["backend"], inputs=arrs, solver="scipy", step_size=c["dt"],
+                                    **({"adaptive": True} if False else {}))
+    except Exception as exn:
+        return dict(status="violated", fails=[dict(clause="get_run_func with inputs on this backend (adaptive)", observed=f"{type(exn).__name__}: {exn}"[:300])])
+    svars = mdl.state_vars(c["model"])
+    try:
+        pos = oracle.positions(comp, c["model"])
+    except Exception as exn:
+        return dict(status="violated", fails=[dict(clause="layout", observed=f"{type(exn).__name__}: {exn}")])
+    per_var = {}
+    for path, arr in arrs.items():
+        for tp in oracle.expand_path(c["model"], path):
+            per_var[tp] = arr
+    n = len(np.asarray(comp["args"][1]).reshape(-1))
+    rng = np.random.default_rng(c.get("seed", 0))
+    fails = []
+    for t in (0.37 * T, -0.25 * T, 0.0, T, 1.3 * T, 2.5 * T):
+        yv = np.round(rng.uniform(-1, 1, size=n), 3)
+        try:
+            got = oracle.eval_field(comp, yv, t)
+        except Exception as exn:
+            return dict(status="violated", fails=[dict(clause="compiled function callable at any time", t=t, observed=f"{type(exn).__name__}: {exn}"[:300])])
+        ext = {p: float(np.interp(t, np.linspace(0.0, T, len(a)), a)) for p, a in per_var.items()}
+        want, _ = mdl.spec_rhs(c["model"], {v: float(yv[pos[v]]) for v in svars}, t=t, ext=ext)
+        for v in svars:
+            if not oracle.close(got[pos[v]], want[v], 1e-6, 1e-9):
+                fails.append(dict(clause="input read by interpolation: linear inside the sample grid, end value held outside it (every backend)",
+                                  var=v, t=float(t), observed=float(got[pos[v]]), expected=float(want[v])))
+                return dict(status="violated", fails=fails)
+    return dict(status="ok", fails=[])
+
+
+def diffrax_seq_case(c):
+    """Two runs in ONE process with solver='diffrax' (JAX) that differ only in parameter values / input samples: each against the spec."""
+    fails = []
+    for j, (model, arr) in enumerate(c["items"]):
+        sub = dict(c, kind="inputs_backend", model=model, inputs={c["target"]: arr}, solver="diffrax", backend="jax")
+        r = dispatch(sub)
+        if r.get("status") == "violated":
+            for f in r["fails"]:
+                f["clause"] = f"run #{j} of two diffrax runs in one process: " + str(f.get("clause"))
+            return r
+    return dict(status="ok", fails=[])
+
+
 def dispatch(c):
     k = c["kind"]
     if k == "vecop":
         return vecop_case(c)
+    if k == "interp_field":
+        return interp_field_case(c)
+    if k == "diffrax_seq":
+        return diffrax_seq_case(c)
     if k == "ring":
         return ring_case(c)
     if k == "loops":
@@ -260,6 +315,16 @@ def families(tier, seed):
                 out.append(dict(tag=f"loop-decimal/{b}/{solver}/{T}/{dt}", features=dict(backend=b, solver=solver), kind="loops", backend=b,
                                 solver=solver, dt=dt, dts=dts, T=T, t0=0, coef=[-0.75, 0.5, 0.25], y0=[0.5, -1.25]))
     out.append(dict(tag="precision-history/jax", features=dict(backend="jax"), kind="precision_history", backend="jax", seed=seed))
+    for b in BACKENDS:
+        out.append(dict(tag=f"interp-field/{b}", features=dict(backend=b), kind="interp_field", model=three, inputs={"p1/op/u": sig[:20]}, T=1.0, dt=0.05,
+                        backend=b, seed=seed))
+    import json as _json
+    three_b = _json.loads(_json.dumps(three))
+    for nd in three_b["nodes"].values():
+        nd.setdefault("over", {})
+        nd["over"]["op/tau"] = nd["over"].get("op/tau", 2.0) * 1.7
+    out.append(dict(tag="diffrax-two-runs/jax", features=dict(backend="jax", solver="diffrax"), kind="diffrax_seq", target="p1/op/u", T=1.0, dt=0.05,
+                    dts=0.1, items=[(three, sig[:20]), (three_b, [-x for x in sig[:20]])]))
     for name in VECOPS:
         for b in BACKENDS:
             out.append(dict(tag=f"{name}/{b}", features=dict(backend=b, vecop=name), kind="vecop", name=name, backend=b, seed=seed))
